@@ -78,9 +78,11 @@ fn generate_shape_map(buf: &Buffer) -> HashMap<usize, HashMap<char, GlyphShape>>
 }
 
 fn get_shape(font: &BitFont, glyph: &Glyph) -> GlyphShape {
+    // only the leftmost `width` bits of the first `height` rows are drawn
+    let mask = if font.size.width >= 8 { 0xFF } else { !(0xFF_u8 >> font.size.width.max(0)) };
     let mut ones = 0;
-    for row in &glyph.data {
-        ones += row.count_ones();
+    for row in glyph.data.iter().take(font.size.height.max(0) as usize) {
+        ones += (row & mask).count_ones();
     }
     if ones == 0 {
         GlyphShape::Whitespace
